@@ -192,6 +192,10 @@ class CallGraph(object):
                     and e.args:
                 return {t for t in self.etype(fi, e.args[0])
                         if t[0] == 'elem'}
+            if isinstance(f, ast.Name) and f.id == 'next' and e.args:
+                # next(iterable[, default]): an element of it
+                return {t[1] for t in self.etype(fi, e.args[0])
+                        if t[0] == 'elem'}
             for t in self.etype(fi, f):
                 if t[0] == 'cls':
                     out.add(('inst', t[1]))
@@ -200,6 +204,9 @@ class CallGraph(object):
                 elif t[0] == 'bound':
                     out |= self.returns.get(t[1], set())
             return out
+        if isinstance(e, (ast.GeneratorExp, ast.ListComp, ast.SetComp)):
+            return {('elem', t) for t in self.etype(fi, e.elt)
+                    if t[0] in ('inst', 'cls')}
         if isinstance(e, ast.IfExp):
             return self.etype(fi, e.body) | self.etype(fi, e.orelse)
         if isinstance(e, ast.BoolOp):
@@ -283,6 +290,11 @@ class CallGraph(object):
                 for t in n.targets:
                     changed |= self._store(fi, t, vt, n.value)
             elif isinstance(n, ast.For):
+                et = {t[1] for t in self.etype(fi, n.iter) if t[0] == 'elem'}
+                if isinstance(n.target, ast.Name):
+                    changed |= self._add(loc, n.target.id, et)
+            elif isinstance(n, ast.comprehension):
+                # the comprehension variable ranges over the elements
                 et = {t[1] for t in self.etype(fi, n.iter) if t[0] == 'elem'}
                 if isinstance(n.target, ast.Name):
                     changed |= self._add(loc, n.target.id, et)
